@@ -22,35 +22,98 @@ def _arith_pats(h):
     return s
 
 
+def _level_table(ctx, fn, operand):
+    """one precedence level of the expression grammar evaluated (finite interpreter; the parser's cursor is its lexem list and
+    index; the next-tighter level `operand` is a stand-in that takes one word and returns it as a leaf; Expr::arithmetic_op is a
+    stand-in that builds a triple) on lexem lists -> {label: (result, cursor)}"""
+    import interp
+    import norm
+    V = interp.V
+    hir = ctx.anchor_hir(fn)
+    ps = ctx.prog.fns[fn]["params"]
+    W, OP = (lambda t: V("Lexem::RawString", [t])), (lambda t: V("Lexem::ArithmeticOperator", [t]))
+    lists = {"a": [W("a")], "a ? b ? c ? d": None, "nothing": []}
+    out = {}
+
+    def run(lexems):
+        selfv = interp.LazySelf({"lexems": list(lexems), "index": 0, "roots_parsed": True, "where_parsed": True})
+
+        def call(node, recv, args, it, env):
+            m_ = node.get("m")
+            callee = str(node.get("callee", ""))
+            if m_ == operand or callee.endswith("Parser::" + operand):
+                i = selfv["index"]
+                if i < len(selfv["lexems"]) and selfv["lexems"][i].name == "Lexem::RawString":
+                    selfv["index"] = i + 1
+                    return (V("Result::Ok", [interp.some(selfv["lexems"][i].args[0])]),)
+                return (V("Result::Err", ["Error parsing expression, expecting an operand"]),)
+            if (m_ or "").startswith("parse_") or "Parser::parse_" in callee:
+                raise interp.Undecided("the operands of %s are taken from %s instead of %s, the next-tighter level" % (short(fn, 1), m_ or short(callee, 1), operand))
+            if callee.endswith("Expr::arithmetic_op") and len(args) == 3:
+                return ((args[0], args[1].name.split("::")[-1] if isinstance(args[1], V) else repr(args[1]), args[2]),)
+            return None
+        got = interp.Interp(call=call, prog=ctx.prog, max_steps=20000).run(hir, {ps[0]["id"]: selfv})
+        if isinstance(got, V) and got.name == "Result::Ok":
+            r = got.args[0]
+            r = r.args[0] if isinstance(r, V) and r.name == "Option::Some" else ("none" if r == interp.NONE else r)
+        elif isinstance(got, V) and got.name == "Result::Err":
+            r = "err"
+        else:
+            r = ("?", got)
+        return r, selfv["index"]
+    for sym in ("+", "-", "*", "/", "%"):
+        out["a %s b" % sym] = run([W("a"), OP(sym), W("b")])
+    for o1, o2, o3 in (("+", "-", "+"), ("-", "+", "-"), ("*", "/", "%"), ("/", "%", "*"), ("%", "*", "/")):
+        out["a %s b %s c %s d" % (o1, o2, o3)] = run([W("a"), OP(o1), W("b"), OP(o2), W("c"), OP(o3), W("d")])
+    out["a"] = run([W("a")])
+    out["a , b"] = run([W("a"), V("Lexem::Comma"), W("b")])
+    return out
+
+
 def r1(ctx):
-    rows = [(ADD_SUB, {"Add", "Subtract"}, "parse_mul_div"), (MUL_DIV, {"Multiply", "Divide", "Modulo"}, "parse_paren")]
+    import interp
+    NAMES = {"+": "Add", "-": "Subtract", "*": "Multiply", "/": "Divide", "%": "Modulo"}
+    rows = [(ADD_SUB, {"+", "-"}, "parse_mul_div"), (MUL_DIV, {"*", "/", "%"}, "parse_paren")]
     for fn, ops, operand in rows:
-        h = ctx.anchor_hir(fn)
-        pats = _arith_pats(h)
-        sub = calls_to(h, "Parser::" + operand)
-        wrong = [c for c in walk_exprs(h) if c["k"] == "MCall" and c["m"].startswith("parse_") and c["m"] != operand]
-        ok = pats == ops and len(sub) == 2 and not wrong
-        ctx.obligation(ok)
-        ctx.covered("precedence level %s: operators %s, operands from %s" % (short(fn, 1), sorted(ops), operand), 1,
-                    distinct_keys=[fn], sample={"ops": sorted(pats), "operand_calls": len(sub)})
-        if not ok:
+        try:
+            tbl = _level_table(ctx, fn, operand)
+        except interp.Undecided as e:
+            ctx.obligation(False)
+            ctx.violation("precedence/%s/%s" % (short(fn, 1), "operands" if "next-tighter" in str(e) else "unreadable"), ctx.where(fn), "cannot evaluate %s on lexem lists: %s" % (short(fn, 1), e))
+            continue
+        n = 0
+        # this level combines exactly its own operators; at another operator it stops and leaves the operator at the cursor
+        bad = []
+        for sym in ("+", "-", "*", "/", "%"):
+            got = tbl["a %s b" % sym]
+            n += 1
+            want = (("a", NAMES[sym], "b"), 3) if sym in ops else ("a", 1)
+            if got != want:
+                bad.append("`a %s b` gives %s, cursor %s (expected %s, cursor %s)" % (sym, got[0], got[1], want[0], want[1]))
+        for k_, want in (("a", ("a", 1)), ("a , b", ("a", 1))):
+            n += 1
+            if tbl[k_] != want:
+                bad.append("`%s` gives %s, cursor %s (expected %s, cursor %s)" % (k_, tbl[k_][0], tbl[k_][1], want[0], want[1]))
+        ctx.obligation(not bad)
+        ctx.covered("precedence level %s evaluated on lexem lists: own operators %s combined, others left at the cursor" % (short(fn, 1), sorted(ops)), n,
+                    distinct_keys=[fn], sample={k_: repr(v_) for k_, v_ in tbl.items()}, exhaustive=True)
+        if bad:
             ctx.violation("precedence/%s" % short(fn, 1), ctx.where(fn),
-                          "%s must handle exactly %s and take both operands from %s; it matches %s, calls %s" %
-                          (short(fn, 1), sorted(ops), operand, sorted(pats), [c["m"] for c in walk_exprs(h) if c["k"] == "MCall" and c["m"].startswith("parse_")]))
-        # left association: the new node is arithmetic_op(accumulated left, op, new operand), inside the loop
-        cs = calls_to(h, "expr::Expr::arithmetic_op")
-        ok = len(cs) == 1
-        if ok:
-            a0, a1, a2 = (render(a) for a in cs[0]["args"])
-            g = guards_of(h, cs[0])
-            ok = a0 == "left" and "expr" in a2 and "new_op" in a1 and any(t[0] == "loop" for t in g)
-            # result is stored back into `left`
-            asg = [x for x in walk_exprs(h) if x["k"] == "Assign" and render(x["l"]) == "left" and any(y is cs[0] for y in walk_exprs(x["r"]))]
-            ok = ok and len(asg) == 1
-        ctx.obligation(ok)
-        if not ok:
+                          "%s must combine exactly the operators %s, taking both operands from %s, and leave any other lexem at the cursor: %s" %
+                          (short(fn, 1), sorted(ops), operand, "; ".join(bad)))
+        # left association: a o1 b o2 c o3 d = ((a o1 b) o2 c) o3 d for chains of this level's operators
+        bad = []
+        for k_, got in tbl.items():
+            syms = k_.split(" ")[1::2]
+            if len(syms) == 3 and all(s_ in ops for s_ in syms):
+                n += 1
+                want = (((("a", NAMES[syms[0]], "b"), NAMES[syms[1]], "c"), NAMES[syms[2]], "d"), 7)
+                if got != want:
+                    bad.append("`%s` gives %s" % (k_, got[0]))
+        ctx.obligation(not bad)
+        if bad:
             ctx.violation("associativity/%s" % short(fn, 1), ctx.where(fn),
-                          "operators of equal precedence must associate to the left: inside the loop, left = arithmetic_op(left, op, operand)")
+                          "operators of equal precedence must associate to the left, each with its own operator: %s" % "; ".join(bad))
     # brackets restart at the top level and unary minus is handled at the leaf
     pp = ctx.anchor_hir(PAREN)
     ok = len(calls_to(pp, "Parser::parse_expr")) == 2 and len(calls_to(pp, "Parser::parse_func_scalar")) == 1
